@@ -109,19 +109,41 @@ func RoundRobin(enabled []int, current int) int {
 // Now replaces time.Now in instrumented files: the real clock plus the virtual time that has
 // passed in the controlled run in progress.
 func Now() time.Time {
-	g := time.Duration(globalOffset.Load())
-	if r := active.Load(); r != nil {
-		return time.Now().Add(g + r.voffset)
+	t := time.Now()
+	if g := globalOffset.Load(); g != 0 {
+		// whole seconds, added outside time.Duration: explorations replay "time passes"
+		// operations millions of times, far beyond the 292 years a Duration can hold
+		t = time.Unix(t.Unix()+g, int64(t.Nanosecond()))
 	}
-	return time.Now().Add(g)
+	if r := active.Load(); r != nil {
+		return t.Add(r.voffset)
+	}
+	return t
 }
 
-// globalOffset is virtual time that has passed outside controlled runs (explicit-state
+// globalOffset (seconds) is virtual time that has passed outside controlled runs (explicit-state
 // explorations of instrumented code use it as their "time passes" operation).
 var globalOffset atomic.Int64
 
-// AdvanceGlobal lets d of virtual time pass for all instrumented code of the process.
-func AdvanceGlobal(d time.Duration) { globalOffset.Add(int64(d)) }
+// clockGate keeps the global virtual clock from jumping while code under test is in the
+// middle of an operation (explorations run many instances in parallel goroutines; between
+// operations any amount of time may pass, inside one it must not).
+var clockGate sync.RWMutex
+
+// HoldClock is called by harnesses around one operation of the code under test; the returned
+// function releases the hold.
+func HoldClock() func() {
+	clockGate.RLock()
+	return clockGate.RUnlock
+}
+
+// AdvanceGlobal lets d of virtual time pass for all instrumented code of the process (between
+// operations: it waits for operations in progress).
+func AdvanceGlobal(d time.Duration) {
+	clockGate.Lock()
+	globalOffset.Add(int64(d / time.Second))
+	clockGate.Unlock()
+}
 
 // Advance lets virtual time pass in the controlled run in progress (a handler that takes long);
 // outside a run it does nothing.
